@@ -203,7 +203,16 @@ pub const SETTER_OPTION: [&str; 11] = [
     "chewing.auto_shift_cursor", "chewing.easy_symbol_input", "chewing.phrase_choice_rearward", "chewing.disable_auto_learn_phrase",
 ];
 pub const INT_OPTS: [&str; 2] = ["chewing.conversion_engine", "chewing.enable_fullwidth_toggle_key"];
-pub const SEL_KEY_SETS: [&[u8; 10]; 3] = [b"1234567890", b"asdfghjkl;", b"qweruiop[]"];
+/// the fourth set holds values that are no bytes (chewing_set_selKey takes ten C ints unchecked): 256 + 'a', a negative
+/// value, a code point beyond ASCII - under an open list each still stands for the digit key of its position
+pub const SEL_KEY_SETS: [[i32; 10]; 4] = [
+    [49, 50, 51, 52, 53, 54, 55, 56, 57, 48],
+    [97, 115, 100, 102, 103, 104, 106, 107, 108, 59],
+    [113, 119, 101, 114, 117, 105, 111, 112, 91, 93],
+    [353, 115, -159, 102, 0x1F600, 104, 106, 107, 108, 59],
+];
+/// the keys a generated history sends through chewing_handle_Default while a list is open
+pub const CHOICE_KEYS: [i32; 24] = [49, 50, 51, 52, 53, 54, 55, 56, 57, 48, 97, 115, 100, 102, 103, 104, 106, 107, 108, 59, 113, 353, -159, 0x1F600];
 
 pub const PHRASES: [(&str, &str); 5] =
     [("測試", "ㄘㄜˋ ㄕˋ"), ("策士", "ㄘㄜˋ ㄕˋ"), ("冊", "ㄘㄜˋ"), ("試試測", "ㄕˋ ㄕˋ ㄘㄜˋ"), ("是", "ㄕˋ")];
@@ -253,7 +262,10 @@ impl Op {
             Op::Set(w, v) => format!("set_{}({})", SETTERS[*w as usize], v),
             Op::SetOpt(w, v) => format!("config_set_int({},{})", INT_OPTS[*w as usize], v),
             Op::SetKb(k) => format!("set_KBType({})", k),
-            Op::SetSelKeys(i) => format!("set_selKey(\"{}\")", String::from_utf8_lossy(SEL_KEY_SETS[*i as usize])),
+            Op::SetSelKeys(i) if *i < 3 => {
+                format!("set_selKey(\"{}\")", SEL_KEY_SETS[*i as usize].iter().map(|k| *k as u8 as char).collect::<String>())
+            }
+            Op::SetSelKeys(i) => format!("set_selKey({:?})", SEL_KEY_SETS[*i as usize]),
             Op::UserAdd(i) => format!("userphrase_add({})", PHRASES[*i as usize].0),
             Op::UserRemove(i) => format!("userphrase_remove({})", PHRASES[*i as usize].0),
         }
@@ -416,12 +428,101 @@ pub struct Mirror {
     pub rc: c_int,
     /// the key event handed to the editor and its answer, if the call is a key
     pub key: Option<(KeyEvent, EditorKeyBehavior)>,
+    /// what was ACTUALLY fed to the twin `Editor` by this call (transcript records `capiops call`)
+    pub call: TwinCall,
+    /// the `Result` of that `Editor` call (`None`: no call, or a call without a result)
+    pub res: Option<bool>,
+}
+
+/// the ONE `Editor` call (or none) the twin made for a C call; `Other` = a call outside the glue model
+/// (option setters, keyboard type, selection keys, user phrases)
+#[derive(Clone, Copy, Debug, PartialEq)]
+pub enum TwinCall {
+    None,
+    Key(KeyEvent),
+    Select(usize),
+    StartSelecting,
+    CancelSelecting,
+    Commit,
+    Clear,
+    Ack,
+    ClearSyl,
+    Jump(u8),
+    Other,
+}
+
+impl TwinCall {
+    /// the text after `=>` of a `capiops call` record (Driver/CApiOps.lean `capiCallText`)
+    pub fn text(&self) -> Option<String> {
+        Some(match self {
+            TwinCall::None => "none".into(),
+            TwinCall::Key(ev) => {
+                let m = &ev.modifiers;
+                format!(
+                    "key {} {} {} {}",
+                    ev.index as u8,
+                    ev.code as u8,
+                    ev.unicode as u32,
+                    m.shift as u8 + 2 * m.ctrl as u8 + 4 * m.capslock as u8 + 8 * m.numlock as u8
+                )
+            }
+            TwinCall::Select(n) => format!("select {}", n),
+            TwinCall::StartSelecting => "start".into(),
+            TwinCall::CancelSelecting => "cancel".into(),
+            TwinCall::Commit => "commit".into(),
+            TwinCall::Clear => "clear".into(),
+            TwinCall::Ack => "ack".into(),
+            TwinCall::ClearSyl => "clearsyl".into(),
+            TwinCall::Jump(w) => format!("jump {}", w),
+            TwinCall::Other => return None,
+        })
+    }
+}
+
+impl Op {
+    /// `<op> <arg|->` of a `capiops call` record; `None` for the calls outside the glue model
+    pub fn record_name(&self) -> Option<(String, String)> {
+        let dash = || "-".to_string();
+        Some(match self {
+            Op::Default(k) => ("Default".into(), k.to_string()),
+            Op::Named(i) => (format!("h:{}", NAMED[*i as usize]), dash()),
+            Op::Numlock(k) => ("Numlock".into(), k.to_string()),
+            Op::CtrlNum(k) => ("CtrlNum".into(), k.to_string()),
+            Op::CandOpen => ("cand_open".into(), dash()),
+            Op::CandClose => ("cand_close".into(), dash()),
+            Op::CandChoose(i) => ("cand_choose_by_index".into(), i.to_string()),
+            Op::CandList(i) => (format!("cand_list_{}", ["first", "last", "next", "prev"][*i as usize]), dash()),
+            Op::CommitPreedit => ("commit_preedit_buf".into(), dash()),
+            Op::CleanPreedit => ("clean_preedit_buf".into(), dash()),
+            Op::CleanBopomofo => ("clean_bopomofo_buf".into(), dash()),
+            Op::Ack => ("ack".into(), dash()),
+            Op::Reset => ("Reset".into(), dash()),
+            _ => return None,
+        })
+    }
+}
+
+/// the facts the glue reads, taken from the twin BEFORE the call: `<is_selecting> <is_entering> <kbtype> <k0,…,k9>`
+pub fn glue_facts(tw: &Twin) -> String {
+    format!(
+        "{} {} {} {}",
+        tw.ed.is_selecting() as u8,
+        tw.ed.is_entering() as u8,
+        tw.kb_id,
+        tw.sel_keys.iter().map(|k| k.to_string()).collect::<Vec<_>>().join(",")
+    )
+}
+
+/// the `AnyKeyboardLayout` variant the twin holds (`Qwerty`, `DvorakOnQwerty`, …)
+pub fn kb_variant(tw: &Twin) -> String {
+    let d = format!("{:?}", tw.kb);
+    d.split('(').next().unwrap_or("?").to_string()
 }
 
 impl Twin {
     fn press(&mut self, ev: KeyEvent) -> Mirror {
         let r = self.ed.process_keyevent(ev);
-        Mirror { rc: 0, key: Some((ev, r)) }
+        Mirror { rc: 0, key: Some((ev, r)), call: TwinCall::Key(ev), res: None }
     }
 
     fn set_option(&mut self, name: &str, v: i32) -> c_int {
@@ -492,8 +593,14 @@ impl Twin {
     }
 
     pub fn apply(&mut self, op: &Op) -> Mirror {
-        let plain = |rc: c_int| Mirror { rc, key: None };
-        let ok = |r: bool| Mirror { rc: if r { 0 } else { -1 }, key: None };
+        // a call outside the glue model (setters, keyboard type, selection keys, user phrases)
+        let plain = |rc: c_int| Mirror { rc, key: None, call: TwinCall::Other, res: None };
+        // no `Editor` call at all
+        let none = |rc: c_int| Mirror { rc, key: None, call: TwinCall::None, res: None };
+        // an `Editor` call whose result is discarded / that has none
+        let done = |call: TwinCall, res: Option<bool>| Mirror { rc: 0, key: None, call, res };
+        // an `Editor` call whose `Result` decides the return value
+        let ok = |call: TwinCall, r: bool| Mirror { rc: if r { 0 } else { -1 }, key: None, call, res: Some(r) };
         match op {
             Op::Default(k) => {
                 // "The value of key can be any printable ASCII character": anything else is no character key.
@@ -512,7 +619,7 @@ impl Twin {
                     let ev = self.kb.map_with_mod(code, m);
                     self.press(ev)
                 }
-                None => plain(0),
+                None => none(0),
             },
             Op::Numlock(k) => {
                 let ev = if (0..=255).contains(k) { self.kb.map_ascii_numlock(*k as u8) } else { self.kb.map(KeyCode::Unknown) };
@@ -531,56 +638,59 @@ impl Twin {
                     55 => KeyCode::N7,
                     56 => KeyCode::N8,
                     57 => KeyCode::N9,
-                    _ => return plain(-1),
+                    _ => return none(-1),
                 };
                 let ev = self.kb.map_with_mod(code, Modifiers::control());
                 self.press(ev)
             }
-            Op::CandOpen => ok(self.ed.start_selecting().is_ok()),
+            Op::CandOpen => ok(TwinCall::StartSelecting, self.ed.start_selecting().is_ok()),
             Op::CandClose => {
                 // "for backward compatible reason this method never errors"
-                let _ = self.ed.cancel_selecting();
-                plain(0)
+                let r = self.ed.cancel_selecting().is_ok();
+                done(TwinCall::CancelSelecting, Some(r))
             }
             // a negative index is out of range like any other index that names no candidate
-            Op::CandChoose(i) => ok(self.ed.select(if *i < 0 { usize::MAX } else { *i as usize }).is_ok()),
+            Op::CandChoose(i) => {
+                let n = if *i < 0 { (*i as i64 as u64) as usize } else { *i as usize };
+                ok(TwinCall::Select(n), self.ed.select(n).is_ok())
+            }
             Op::CandList(i) => {
                 if !self.ed.is_selecting() {
-                    return plain(-1);
+                    return none(-1);
                 }
                 match i {
                     0 => {
-                        let _ = self.ed.jump_to_first_selection_point();
-                        plain(0)
+                        let r = self.ed.jump_to_first_selection_point().is_ok();
+                        done(TwinCall::Jump(0), Some(r))
                     }
                     1 => {
-                        let _ = self.ed.jump_to_last_selection_point();
-                        plain(0)
+                        let r = self.ed.jump_to_last_selection_point().is_ok();
+                        done(TwinCall::Jump(1), Some(r))
                     }
-                    2 => ok(self.ed.jump_to_next_selection_point().is_ok()),
-                    _ => ok(self.ed.jump_to_prev_selection_point().is_ok()),
+                    2 => ok(TwinCall::Jump(2), self.ed.jump_to_next_selection_point().is_ok()),
+                    _ => ok(TwinCall::Jump(3), self.ed.jump_to_prev_selection_point().is_ok()),
                 }
             }
-            Op::CommitPreedit => ok(self.ed.commit().is_ok()),
+            Op::CommitPreedit => ok(TwinCall::Commit, self.ed.commit().is_ok()),
             Op::CleanPreedit => {
                 if self.ed.is_entering() {
                     self.ed.clear();
-                    plain(0)
+                    done(TwinCall::Clear, None)
                 } else {
-                    plain(-1)
+                    none(-1)
                 }
             }
             Op::CleanBopomofo => {
                 self.ed.clear_syllable_editor();
-                plain(0)
+                done(TwinCall::ClearSyl, None)
             }
             Op::Ack => {
                 self.ed.ack();
-                plain(0)
+                done(TwinCall::Ack, None)
             }
             Op::Reset => {
                 self.ed.clear();
-                plain(0)
+                done(TwinCall::Clear, None)
             }
             Op::Set(w, v) => {
                 self.set_option(SETTER_OPTION[*w as usize], *v);
@@ -598,7 +708,7 @@ impl Twin {
             }
             Op::SetSelKeys(i) => {
                 for (j, b) in SEL_KEY_SETS[*i as usize].iter().enumerate() {
-                    self.sel_keys[j] = *b as i32;
+                    self.sel_keys[j] = *b;
                 }
                 plain(0)
             }
